@@ -155,6 +155,19 @@ func run() int {
 			}
 			continue
 		}
+		if ct.Iface {
+			if ct.Props[*prop] {
+				for _, ik := range ct.Impls {
+					// an implementation with its own contract is verified against that one
+					if own := w.Contracts[ik]; own != nil {
+						addFn(w.FnByKey[ik], mergeIface(own, ct), false)
+					} else {
+						addFn(w.FnByKey[ik], ct, false)
+					}
+				}
+			}
+			continue
+		}
 		if ct.Props[*prop] {
 			addFn(w.FnByKey[k], ct, false)
 		}
@@ -202,6 +215,16 @@ func run() int {
 			fmt.Fprintf(os.Stderr, "gen %-70s obls=%d paths=%d %.2fs %s\n", r.Name, len(r.Obls), r.Paths, r.GenS, r.OutOfSubset)
 		}
 		for _, k := range r.UsedContracts {
+			if ct := w.Contracts[k]; ct != nil && ct.Iface {
+				for _, ik := range ct.Impls {
+					if own := w.Contracts[ik]; own != nil {
+						addFn(w.FnByKey[ik], mergeIface(own, ct), false)
+					} else {
+						addFn(w.FnByKey[ik], ct, false)
+					}
+				}
+				continue
+			}
 			if fn := w.FnByKey[k]; fn != nil {
 				if ct := w.Contracts[k]; ct != nil && !ct.Trusted {
 					addFn(fn, ct, false)
@@ -737,3 +760,18 @@ func relAll(fs []string) []string {
 }
 
 func round3(f float64) float64 { return float64(int(f*1000+0.5)) / 1000 }
+
+// mergeIface: an implementation with its own contract must also satisfy the interface contract
+// (behavioural subtyping): its postconditions are added to the implementation's.
+func mergeIface(own, iface *vc.Contract) *vc.Contract {
+	m := *own
+	m.Ensures = append(append([]*vc.Clause{}, own.Ensures...), iface.Ensures...)
+	m.Props = map[string]bool{}
+	for k := range own.Props {
+		m.Props[k] = true
+	}
+	for k := range iface.Props {
+		m.Props[k] = true
+	}
+	return &m
+}
